@@ -18,6 +18,8 @@ use crate::internal::messages::common::TaskFailInfo;
 use crate::internal::messages::worker::{
     TaskRunningMsg, ToWorkerMessage, WorkerOverview, WorkerTaskUpdate,
 };
+use crate::control::WorkerTypeQuery;
+use crate::internal::scheduler::query::compute_new_worker_query;
 use crate::internal::scheduler::verif_log;
 use crate::internal::scheduler::{
     TaskBatch, create_task_batches, create_task_mapping, run_scheduling_solver,
@@ -174,6 +176,34 @@ pub struct VWorker {
     pub prefilled: Vec<u64>,
 }
 
+/// One `WorkerTypeQuery` as plain data: descriptor items are (resource name, units); "cpus" becomes a
+/// one-socket range, everything else a `Sum` item.
+#[derive(Debug, Clone)]
+pub struct VQuery {
+    pub partial: bool,
+    pub items: Vec<(String, u32)>,
+    pub time_limit: Option<u64>,
+    pub max_sn_workers: u32,
+    pub max_workers_per_allocation: u32,
+    pub min_utilization: f32,
+}
+
+/// What `compute_new_worker_query` answered, plus the raw solution of the solve it ran.
+#[derive(Debug, Clone, Default)]
+pub struct VQueryResult {
+    /// `Err` of `descriptor.validate(!partial)` (the first step of `ServerRef::new_worker_query`)
+    pub invalid: bool,
+    pub sn: Vec<u32>,
+    /// (worker_type, worker_per_allocation, max_allocations) in the order of the response
+    pub mn: Vec<(usize, u32, u32)>,
+    /// every variable the solver created: (kind, a, b, c, rounded value), kinds as in `verif_log`
+    pub xvars: Vec<(char, u32, u32, u32, i64)>,
+    /// the solver produced values (false: no solve or no incumbent)
+    pub solved: bool,
+    pub n_vars: usize,
+    pub worker_counter: u32,
+}
+
 pub struct VSched {
     core: Core,
     comm: NullComm,
@@ -243,6 +273,126 @@ impl VSched {
         let map = self.core.create_resource_map();
         let worker = Worker::new(WorkerId::new(id), config, &map, self.now);
         on_new_worker(&mut self.core, &mut self.comm, worker);
+    }
+
+    /// Worker with a server-assigned id (`Core::new_worker_id`, as a connecting worker gets it), a
+    /// group name and an optional time limit; returns the id.
+    pub fn add_worker_auto(
+        &mut self,
+        cpus: u32,
+        others: &[(&str, u32)],
+        group: &str,
+        time_limit_secs: Option<u64>,
+    ) -> u32 {
+        let id = self.core.new_worker_id();
+        let mut descriptor = ResourceDescriptor::simple_cpus(cpus);
+        for (name, units) in others {
+            descriptor.resources.push(ResourceDescriptorItem::sum(name, *units));
+        }
+        let config = WorkerConfiguration {
+            resources: descriptor,
+            listen_address: format!("1.1.1.{id}:123"),
+            hostname: format!("v{id}"),
+            group: group.to_string(),
+            work_dir: Default::default(),
+            heartbeat_interval: Duration::from_millis(1000),
+            overview_configuration: OverviewConfiguration {
+                send_interval: None,
+                gpu_families: Default::default(),
+            },
+            idle_timeout: None,
+            time_limit: time_limit_secs.map(Duration::from_secs),
+            retract_check_interval: Duration::from_secs(30),
+            on_server_lost: ServerLostPolicy::Stop,
+            min_utilization: 0.0,
+            extra: Default::default(),
+        };
+        let map = self.core.create_resource_map();
+        let worker = Worker::new(id, config, &map, self.now);
+        on_new_worker(&mut self.core, &mut self.comm, worker);
+        id.as_num()
+    }
+
+    /// Multi-node request class (`n_nodes` >= 1, `min_time` in seconds); returns rq id.
+    pub fn add_request_mn(&mut self, n_nodes: u32, min_time: u64) -> u32 {
+        let rq = ClientRq {
+            n_nodes,
+            resources: Default::default(),
+            min_time: Duration::from_secs(min_time),
+            weight: Default::default(),
+        };
+        rq.validate().expect("valid request");
+        let rqv = ClientRqv::new_simple(rq);
+        let (id, _) = get_or_create_resource_rq_id(&mut self.core, &mut self.comm, &rqv);
+        id.as_num()
+    }
+
+    pub fn worker_counter(&self) -> u32 {
+        self.core.worker_counter()
+    }
+
+    /// number of connected workers with `is_free()`
+    pub fn n_free_workers(&self) -> u32 {
+        self.core.get_workers().filter(|w| w.is_free()).count() as u32
+    }
+
+    /// The real `compute_new_worker_query` (after the `validate` step of `ServerRef::new_worker_query`),
+    /// with the row log of the solve it runs.
+    pub fn query(&mut self, queries: &[VQuery]) -> VQueryResult {
+        let qs: Vec<WorkerTypeQuery> = queries
+            .iter()
+            .map(|q| {
+                let resources = q
+                    .items
+                    .iter()
+                    .map(|(name, units)| {
+                        if name == "cpus" && *units > 0 {
+                            ResourceDescriptor::simple_cpus(*units).resources.remove(0)
+                        } else {
+                            ResourceDescriptorItem::sum(name, *units)
+                        }
+                    })
+                    .collect();
+                WorkerTypeQuery {
+                    partial: q.partial,
+                    descriptor: ResourceDescriptor::new(resources, Default::default()),
+                    time_limit: q.time_limit.map(Duration::from_secs),
+                    max_sn_workers: q.max_sn_workers,
+                    max_workers_per_allocation: q.max_workers_per_allocation,
+                    min_utilization: q.min_utilization,
+                }
+            })
+            .collect();
+        let mut r = VQueryResult { worker_counter: self.core.worker_counter(), ..Default::default() };
+        if qs.iter().any(|q| q.descriptor.validate(!q.partial).is_err()) {
+            r.invalid = true;
+            return r;
+        }
+        verif_log::start();
+        let response = compute_new_worker_query(&mut self.core, &qs);
+        let log = verif_log::take();
+        let mut values: Option<Vec<f64>> = None;
+        let mut vars: Vec<(usize, char, u32, u32, u32)> = Vec::new();
+        for e in log {
+            match e {
+                verif_log::Entry::Var { index, kind, a, b, c, .. } => vars.push((index, kind, a, b, c)),
+                verif_log::Entry::Values(v) => values = Some(v),
+                verif_log::Entry::Row { .. } => {}
+            }
+        }
+        r.n_vars = vars.len();
+        r.solved = values.is_some();
+        let vals = values.unwrap_or_default();
+        for (index, kind, a, b, c) in vars {
+            r.xvars.push((kind, a, b, c, vals.get(index).map(|v| v.round() as i64).unwrap_or(0)));
+        }
+        r.sn = response.single_node_workers_per_query;
+        r.mn = response
+            .multi_node_allocations
+            .iter()
+            .map(|m| (m.worker_type, m.worker_per_allocation, m.max_allocations))
+            .collect();
+        r
     }
 
     /// Single-variant single-node request class (resource name, amount in fractions); returns rq id.
